@@ -18,7 +18,31 @@ def _src_hash(repo):
             h.update(open(os.path.join(root, f), 'rb').read())
     for f in sorted(os.listdir(os.path.join(VERIF, 'replay', 'src'))):
         h.update(open(os.path.join(VERIF, 'replay', 'src', f), 'rb').read())
+    inj = os.path.join(VERIF, 'replay', 'inject')
+    if os.path.isdir(inj):
+        for f in sorted(os.listdir(inj)):
+            h.update(open(os.path.join(inj, f), 'rb').read())
     return h.hexdigest()[:12]
+
+
+def crate_copy(repo, out):
+    """Copy of the crate that the replay executable links against: <repo>/src, Cargo.lock and Cargo.toml (bench / dev sections
+    dropped) are copied as they are; each replay/inject/<stem>.rs is appended to the copy of src/<stem>.rs as a child module
+    (so that a probe can read private state, exactly as the Kani harnesses are appended). Nothing else differs."""
+    crate = os.path.join(out, 'crate')
+    shutil.rmtree(crate, ignore_errors=True)
+    shutil.copytree(os.path.join(repo, 'src'), os.path.join(crate, 'src'))
+    shutil.copy(os.path.join(repo, 'Cargo.lock'), crate)
+    open(os.path.join(crate, 'Cargo.toml'), 'w').write(verus.stripped_cargo_toml(repo))
+    inj = os.path.join(VERIF, 'replay', 'inject')
+    if os.path.isdir(inj):
+        for f in sorted(os.listdir(inj)):
+            if f.endswith('.rs'):
+                dst = os.path.join(crate, 'src', f.replace('__', '/'))
+                if os.path.exists(dst):
+                    with open(dst, 'a') as fo:
+                        fo.write('\n// ---- verif probe (appended by tools/yqv/replay.py) ----\n' + open(os.path.join(inj, f)).read())
+    return crate
 
 
 def build(repo, profile='dev'):
@@ -27,7 +51,7 @@ def build(repo, profile='dev'):
         return _built[key]
     out = os.path.join(verus.SCRATCH_ROOT, 'yqv-replay-' + _src_hash(repo))
     os.makedirs(os.path.join(out, 'src'), exist_ok=True)
-    toml = open(os.path.join(VERIF, 'replay', 'Cargo.toml.in')).read().replace('@REPO@', repo)
+    toml = open(os.path.join(VERIF, 'replay', 'Cargo.toml.in')).read().replace('@REPO@', crate_copy(repo, out))
     open(os.path.join(out, 'Cargo.toml'), 'w').write(toml)
     for f in os.listdir(os.path.join(VERIF, 'replay', 'src')):
         shutil.copy(os.path.join(VERIF, 'replay', 'src', f), os.path.join(out, 'src'))
